@@ -716,7 +716,49 @@ def check_chooser(ctx, b, group="FRESH", tag="chooser"):
             if isinstance(cv_, tuple) and cv_[:1] == ("coll",) and len(cv_[1]) == 1 and cv_[1][0][0] == (VARS_,) and len(cv_[1][0][1]) == 1 and not cv_[1][0][1][0][0] \
                     and cv_[1][0][1][0][1] in (("fieldof", ("at", VARS_), "name"), ("call", "String::as_str", (("fieldof", ("at", VARS_), "name"),))):
                 taken_name = nm
-    taken_ids = {i_ for i_, n_ in id_name.items() if n_ == taken_name}
+    taken_pred_ids = set()
+    if taken_name is None:
+        # no list at all: a local predicate `|name| variables.iter().any(|v| v.name == name)` asks the first parameter itself
+        first_param = {pb["id"] for pb in pat_bindings(b["params"][0])} if b["params"] else set()
+        for n_ in walk(b["body"]):
+            if n_.get("k") != "LetStmt" or "init" not in n_ or strip(n_["init"]).get("k") != "Closure":
+                continue
+            cl_ = strip(n_["init"])
+            if len(cl_.get("params", [])) != 1:
+                continue
+            arg_ids = {pb["id"] for pb in pat_bindings(cl_["params"][0])}
+            body_ = strip(cl_["body"])
+            while body_.get("k") == "Block" and not body_.get("stmts") and body_.get("expr") is not None:
+                body_ = strip(body_["expr"])
+            if body_.get("k") != "MethodCall" or body_.get("method") != "any" or len(body_.get("args", [])) != 1:
+                continue
+            r_ = strip(body_["recv"])
+            while r_.get("k") == "MethodCall" and r_.get("method") in ("iter", "into_iter"):
+                r_ = strip(r_["recv"])
+            inner_ = strip(body_["args"][0])
+            if local_id_of(r_) not in first_param or inner_.get("k") != "Closure" or len(inner_.get("params", [])) != 1:
+                continue
+            el_ids = {pb["id"] for pb in pat_bindings(inner_["params"][0])}
+            ib_ = strip(inner_["body"])
+            while ib_.get("k") == "Block" and not ib_.get("stmts") and ib_.get("expr") is not None:
+                ib_ = strip(ib_["expr"])
+            if ib_.get("k") != "Binary" or ib_.get("op") != "Eq":
+                continue
+
+            def side(e_):
+                e_ = strip(e_)
+                while e_.get("k") in ("Unary", "AddrOf", "Ref") or (e_.get("k") == "MethodCall" and e_.get("method") in ("as_str", "as_ref", "deref")):
+                    e_ = strip(e_["e"] if "e" in e_ else e_["recv"])
+                if e_.get("k") == "Field" and e_.get("name") == "name" and local_id_of(e_["e"]) in el_ids:
+                    return "elem-name"
+                if local_id_of(e_) in arg_ids:
+                    return "arg"
+                return None
+            if {side(ib_["l"]), side(ib_["r"])} == {"elem-name", "arg"}:
+                for pb in pat_bindings(n_["pat"]):
+                    taken_name = pb["name"]
+                    taken_pred_ids.add(pb["id"])
+    taken_ids = {i_ for i_, n_ in id_name.items() if n_ == taken_name} | taken_pred_ids
     fresh_ids = {i_ for i_, n_ in id_name.items() if n_ == fresh_name}
     # the search loop is left exactly when the candidate is neither taken nor already chosen: `while a || b { redraw }`, `loop { if !a && !b
     # { break c } redraw }` and De Morgan variants are the same exit condition over the two membership tests
@@ -734,6 +776,8 @@ def check_chooser(ctx, b, group="FRESH", tag="chooser"):
         if k_ == "MethodCall" and e.get("method") == "contains":
             rid = local_id_of(e["recv"])
             return env["taken"] if rid in taken_ids else (env["fresh"] if rid in fresh_ids else None)
+        if k_ == "Call" and local_id_of(e["f"]) in taken_pred_ids:
+            return env["taken"]
         if k_ in ("DropTemps", "Paren", "Use"):
             return truth(e["e"], env)
         return None
@@ -762,6 +806,8 @@ def check_chooser(ctx, b, group="FRESH", tag="chooser"):
             "a candidate is redrawn while it is in the taken names (`%s`) OR among the names already handed out (`%s`): %s" % (taken_name, fresh_name, in_while))
     # taken holds the name of every element of `variables`
     last = ev.last_env.get(taken_name, [None])[-1] if taken_name else None
+    if taken_pred_ids:
+        last = ("call", "Iterator::any", (P("$variables"), ("closure", ("v",), ("bin", "Eq", ("fieldof", ("param", "v"), "name"), ("param", "name")))))
     ctx.add(group, tag + ":taken-all", last is not None, ctx.site(b), "a list receives the name of every variable of the `variables` argument: %s" % rn(ftpl.NF().gen(last) if last else None))
     # the plain variant is only used when not taken
     m = [n for n in walk(b["body"]) if n.get("k") == "Match" and any(x.get("k") == "MethodCall" and x["method"] == "contains" for x in walk(n["scrut"]))]
@@ -786,6 +832,9 @@ def check_chooser(ctx, b, group="FRESH", tag="chooser"):
                     return local_id_of(e_)
                 # membership of the prefix in the taken names: `taken.contains(variant)` or `taken.iter().any(|t| t == variant)`
                 cc = [x for x in walk(n_["cond"]) if x.get("k") == "MethodCall" and x["method"] in ("contains", "any")]
+                pc = [x for x in walk(n_["cond"]) if x.get("k") == "Call" and local_id_of(x["f"]) in taken_pred_ids]
+                if len(pc) == 1 and not cc:
+                    cc = [{"method": "pred", "recv": pc[0]["f"], "args": pc[0]["args"]}]
                 if len(cc) != 1 or root_id(cc[0]["recv"]) not in taken_ids:
                     continue
                 if cc[0]["method"] == "any" and not [y for y in walk(cc[0]["args"][0]) if y.get("k") == "Binary" and y.get("op") == "Eq"]:
